@@ -35,8 +35,8 @@ static std::string oracle(const Case& c) {
         return "";
     }
     // load
-    std::string b = c.bytes("buf"); b.resize(32, '\0'); uint8_t* in = (uint8_t*)malloc(32); memcpy(in, b.data(), 32); if (c.u("allocfail")) k.fail_all = true;
-    polyseed_data* sd = nullptr; int st = polyseed_load(in, &sd); k.fail_all = false; bool mod = memcmp(in, b.data(), 32) != 0; free(in);
+    std::string b = c.bytes("buf"); b.resize(32, '\0'); unsigned off = (unsigned)c.u("odd") & 1u; uint8_t* raw = (uint8_t*)malloc(32 + off); uint8_t* in = raw + off; memcpy(in, b.data(), 32); if (c.u("allocfail")) k.fail_all = true;
+    polyseed_data* sd = nullptr; int st = polyseed_load(in, &sd); k.fail_all = false; bool mod = memcmp(in, b.data(), 32) != 0; free(raw);
     if (mod) return "load modified its input"; if (st == 0) polyseed_free(sd);
     if (!(st == 0 || st == model::FORMAT || st == model::CHECKSUM || st == model::UNSUPPORTED || st == model::MEMORY)) return "load returned the undocumented status " + std::to_string(st);
     if (c.u("allocfail") && k.alloc_failed && st != model::MEMORY) return std::string("allocation failed in load but the status is ") + model::status_name(st);
@@ -73,7 +73,7 @@ static void run() {
         else if (kind == 2) { const lib::LibWords& lw = lib::lib_words(REG->at(*g::lang_index())); RC_PRE(lw.ok); int n = *in_range<int>(0, 24); std::string s; for (int i = 0; i < n; i++) { if (i) s += *rc::gen::element<std::string>(" ", " ", " ", "  ", "\xe3\x80\x80"); s += lw.w[*in_range<int>(0, 2048)]; if (*in_range<int>(0, 6) == 0) s += (char)*rc::gen::inRange<int>(0x80, 0x100); } c.set("kind", "phrase"); c.set("s", hex(s)); c.set("gen", "words+stray-bytes"); }
         else { auto v = *vf::bytes(32); if (*in_range<int>(0, 4) == 0) { model::Seed ms = g::to_seed(*g::secret19(), *g::birthday(), *in_range<unsigned>(0, 32)); c.set("mask", *in_range<unsigned>(0, 8)); /* incl. reserved / not enabled feature bits with a valid check value */ auto im = model::image(ms); memcpy(v.data(), im.data(), 32); if (*in_range<int>(0, 3) == 0) v[*in_range<size_t>(8, 32)] ^= (uint8_t)(1u << *in_range<int>(0, 8)); }
             else if (*in_range<int>(0, 3)) memcpy(v.data(), "POLYSEED", 8); else if (*in_range<int>(0, 2)) { v[29] = 0xFF; v[31] = (uint8_t)(0x70 | (v[31] & 7)); v[9] &= 0x7F; v[28] &= 0x3F; } c.set("kind", "load"); c.set("buf", hex(v)); c.set("gen", "buffer"); }
-        c.set("coin", (uint64_t)*g::coin()); c.set("lenient", *in_range<unsigned>(0, 2)); c.set("allocfail", *in_range<unsigned>(0, 2));
+        c.set("coin", (uint64_t)*g::coin()); c.set("lenient", *in_range<unsigned>(0, 2)); c.set("allocfail", *in_range<unsigned>(0, 2)); c.set("odd", *in_range<unsigned>(0, 2));
         set_current(c); std::string m = oracle(c); if (!m.empty()) VF_FAIL(c, m);
     });
 }
